@@ -2,6 +2,7 @@ package bttest
 
 import (
 	"bytes"
+	"sync"
 
 	btapb "cloud.google.com/go/bigtable/admin/apiv2/adminpb"
 	btpb "cloud.google.com/go/bigtable/apiv2/bigtablepb"
@@ -22,7 +23,7 @@ var _ Storage = BtreeStorage{}
 
 // Create a new table, destroying any existing table.
 func (BtreeStorage) Create(_ *btapb.Table) Rows {
-	return btreeRows{btree.New(btreeDegree)}
+	return btreeRows{tree: btree.New(btreeDegree), cloneMu: &sync.Mutex{}}
 }
 
 // GetTables returns metadata about all stored tables.
@@ -40,25 +41,35 @@ func (f BtreeStorage) SetTableMeta(_ *btapb.Table) {
 }
 
 type btreeRows struct {
-	tree *btree.BTree
+	tree    *btree.BTree
+	cloneMu *sync.Mutex // BTree.Clone must not be called concurrently (scans only hold the table's read lock)
+}
+
+// snapshot returns a lazily cloned (copy-on-write) view of the tree to iterate over. Iterating the live tree is not
+// safe: ReadRows gives up the table lock while it streams a batch, and a structural change of the tree in that window
+// (insert, delete, clear) makes the iteration skip or repeat rows or panic with an index out of range.
+func (b btreeRows) snapshot() *btree.BTree {
+	b.cloneMu.Lock()
+	defer b.cloneMu.Unlock()
+	return b.tree.Clone()
 }
 
 var _ Rows = btreeRows{}
 
 func (b btreeRows) Ascend(iterator RowIterator) {
-	b.tree.Ascend(b.adaptIterator(iterator))
+	b.snapshot().Ascend(b.adaptIterator(iterator))
 }
 
 func (b btreeRows) AscendRange(greaterOrEqual, lessThan keyType, iterator RowIterator) {
-	b.tree.AscendRange(b.key(greaterOrEqual), b.key(lessThan), b.adaptIterator(iterator))
+	b.snapshot().AscendRange(b.key(greaterOrEqual), b.key(lessThan), b.adaptIterator(iterator))
 }
 
 func (b btreeRows) AscendLessThan(lessThan keyType, iterator RowIterator) {
-	b.tree.AscendLessThan(b.key(lessThan), b.adaptIterator(iterator))
+	b.snapshot().AscendLessThan(b.key(lessThan), b.adaptIterator(iterator))
 }
 
 func (b btreeRows) AscendGreaterOrEqual(greaterOrEqual keyType, iterator RowIterator) {
-	b.tree.AscendGreaterOrEqual(b.key(greaterOrEqual), b.adaptIterator(iterator))
+	b.snapshot().AscendGreaterOrEqual(b.key(greaterOrEqual), b.adaptIterator(iterator))
 }
 
 func (b btreeRows) Delete(key keyType) {
